@@ -177,6 +177,8 @@ func (g *gen) genFunc(typs []types.Type) error {
 }
 
 func (g *gen) genStatement(typ types.Type, this, that string) error {
+	// an alias is only another name for its type
+	typ = types.Unalias(typ)
 	p := g.printer
 	switch ttyp := typ.Underlying().(type) {
 	case *types.Basic:
@@ -441,6 +443,7 @@ func equalMethodInputParam(typ *types.Named) *types.Type {
 }
 
 func (g *gen) field(thisField, thatField string, fieldType types.Type) (string, error) {
+	fieldType = types.Unalias(fieldType)
 	if named, isNamed := fieldType.(*types.Named); isNamed {
 		inputType := equalMethodInputParam(named)
 		if inputType != nil {
